@@ -63,6 +63,50 @@ _dep("DataReplacement", "Rewrite", [["Rewrite.groups"], ["DataReplacement.replac
 _dep("DataReplacement", "DataReplacement", [["DataReplacement.replacements"], ["fields"]], "same field of the same fragment replaced twice")
 
 
+# operation -> the fields of the variant that name fragments existing at the read version which the operation changes or
+# removes: TransactionRebase.modified_fragment_ids must be collected from all of them (reviewed against the enum)
+TOUCHED_FIELDS = {
+    "Delete": ("updated_fragments", "deleted_fragment_ids"),
+    "Update": ("updated_fragments", "removed_fragment_ids"),
+    "Rewrite": ("groups",),            # old_fragments of each group is read inside the flat_map closure
+    "DataReplacement": ("replacements",),
+    "Merge": ("fragments",),
+}
+ALL_TOUCHED = {x for v in TOUCHED_FIELDS.values() for x in v}
+
+
+def _is_none(c, op):
+    """The operand is a literal Option::None (the `affected_rows: None` short circuit)."""
+    p = op_place(op)
+    if p is None or len(p) != 1:
+        return False
+    d = c.single_def(p[0])
+    return bool(d) and d[0] == "assign" and d[3]["rv"]["r"] == "agg" and (d[3]["rv"].get("adt") or "").endswith("option::Option") and d[3]["rv"]["variant"] == "None"
+
+
+def _base_locals(c, l, limit=40):
+    """Locals `l` is a copy / move / (re)borrow of, transitively (plain assignments only: no calls, no arithmetic)."""
+    seen, work = set(), [l]
+    while work and len(seen) < limit:
+        x = work.pop()
+        if x in seen:
+            continue
+        seen.add(x)
+        for df in c.defs.get(x, {"whole": []})["whole"]:
+            if df[0] != "assign":
+                continue
+            rv = df[3]["rv"]
+            p = rv.get("place") if rv["r"] == "ref" else (op_place(rv["op"]) if rv["r"] == "use" else None)
+            if p and all(e == "*" for e in p[1:]):
+                work.append(p[0])
+    return seen
+
+
+def _same_source(c, a, b):
+    """a and b are the same variable seen through moves / borrows (`&ids` handed to a call, `ids` moved into a struct)."""
+    return bool({x for x in _base_locals(c, a) & _base_locals(c, b) if c.fn.locals[x].get("name")})
+
+
 def classify_ok(cell, key):
     return cell["class"] != "ALWAYS_OK"
 
@@ -152,6 +196,74 @@ def check_try_new(db, chk, M):
                 filled = True
         chk.ob(R, "fills:%s" % var, filled, "try_new arm for %s builds modified_fragment_ids from the operation (collect): %s" % (var, filled),
                body.loc())
+        # the set covers every fragment-id-carrying field of the variant that names *existing* fragments (reviewed table)
+        need = TOUCHED_FIELDS.get(var)
+        if need is None:
+            chk.ob(R, "covers:%s" % var, False, "operation %s reads modified_fragment_ids in its checker but has no reviewed list of "
+                   "touched-fragment fields (add it to TOUCHED_FIELDS after reading the variant)" % var, body.loc())
+            continue
+        from .C05 import _reaches_local
+        full = []      # aggregates of this arm that keep affected_rows (= the row-level path), with their id-set local
+        for i, j, s in c.aggregates(adt="TransactionRebase"):
+            if i not in r:
+                continue
+            rv = s["rv"]
+            have = dict(zip(rv["fields"], rv["ops"]))
+            org = c.op_origins(have["modified_fragment_ids"], transparent=lambda t: True)
+            flds = {x[1] for x in org if x[0] == "field"}
+            chk.ob(R, "covers:%s@%s" % (var, "short-circuit" if _is_none(c, have["affected_rows"]) else "full"), set(need) <= flds,
+                   "modified_fragment_ids of the %s arm is collected from the operation's %s (found %s)" % (var, sorted(need), sorted(flds & ALL_TOUCHED)),
+                   body.loc(s["ln"]))
+            if not _is_none(c, have["affected_rows"]):
+                full.append((i, s, have))
+        # the fragments snapshotted for the row-level check (initial_fragments) are selected by that very set: a fragment
+        # that is modified but missing from initial_fragments can neither be marked for rewrite nor raise the removed-fragment conflict
+        for i, s, have in full:
+            p_ids = op_place(have["modified_fragment_ids"])
+            oi = c.op_origins(have["initial_fragments"], transparent=lambda t: True)
+            sites = [(b, t) for b, t in calls(body, "conflict_resolver::initial_fragments_for_rebase") if b in r]
+            same = False
+            for b, t in sites:
+                pa = op_place(t["args"][2])
+                if pa is not None and p_ids is not None:
+                    same = same or _reaches_local(c, pa[0], {p_ids[0]}) or _reaches_local(c, p_ids[0], {pa[0]}) or _same_source(c, pa[0], p_ids[0])
+            chk.ob(R, "snapshot-by-same-set:%s" % var, origin_has_call(oi, "initial_fragments_for_rebase") and bool(sites) and same,
+                   "initial_fragments <- initial_fragments_for_rebase(dataset, txn, &<the set stored as modified_fragment_ids>) (%d site(s), same set: %s)" % (
+                       len(sites), same), body.loc(s["ln"]))
+
+
+def check_initial_fragments(db, chk):
+    R = "INV-initial-fragments"
+    chk.rule(R, "initial_fragments_for_rebase snapshots, at the transaction's read version, exactly the fragments whose id is in the given set")
+    f = db.one(r"^io::commit::conflict_resolver::initial_fragments_for_rebase$", file=matrix.RESOLVER)
+    body = user_body(db, f)
+    chk.analysed(body)
+    c = body.cfg
+    co = calls(body, "Dataset::checkout_version")
+    okv = len(co) == 1 and ("field", "read_version") in c.op_origins(co[0][1]["args"][1], transparent=lambda t: True)
+    chk.ob(R, "at-read-version", okv, "when the dataset moved on, the fragments are read from checkout_version(transaction.read_version) (%d site(s))" % len(co),
+           body.loc(co[0][1]["ln"]) if co else body.loc())
+    fl = calls(body, "Iterator::filter")
+    okf = False
+    detail = "no filter"
+    if len(fl) == 1:
+        o = c.op_origins(fl[0][1]["args"][0], transparent=lambda t: True)
+        from_frags = origin_has_call(o, "Dataset::fragments")
+        clos = [db.fns[x[1]] for x in c.op_origins(fl[0][1]["args"][1], transparent=lambda t: True) if x[0] == "closure" and x[1] in db.fns]
+        by_set = False
+        for k in clos:
+            for b, t in calls(k, "HashSet::<T, S, A>::contains"):
+                kc = k.cfg
+                o0 = kc.op_origins(t["args"][0], transparent=lambda t: True)
+                o1 = kc.op_origins(t["args"][1], transparent=lambda t: True)
+                negated = any(s.get("rv", {}).get("r") == "un" and s["rv"]["op"].startswith("Not") for _, _, s in kc.stmts())
+                by_set = by_set or (("upvar", "modified_fragment_ids") in o0 and ("field", "id") in o1 and not negated)
+        okf = from_frags and by_set
+        detail = "dataset.fragments() (%s) filtered by modified_fragment_ids.contains(&fragment.id) (%s)" % (from_frags, by_set)
+    chk.ob(R, "selected-by-id-set", okf, detail, body.loc(fl[0][1]["ln"]) if fl else body.loc())
+    col = calls(body, "Iterator::collect")
+    okc = bool(col) and any(origin_has_call(c.op_origins(t["args"][0], transparent=lambda t: True), "Iterator::filter") for _, t in col)
+    chk.ob(R, "returned", okc, "the filtered fragments are what is returned (collect over the filter)", body.loc())
 
 
 def check_commit_wiring(db, chk):
@@ -223,6 +335,7 @@ def run(db, chk):
     variants, M = check_matrix(db, chk)
     apply_oracle(chk, M, NOT_ALWAYS_OK, DEPENDS)
     check_try_new(db, chk, M)
+    check_initial_fragments(db, chk)
     check_commit_wiring(db, chk)
     chk.info("the conflict matrix in transaction.rs' module documentation is not used as an oracle (it disagrees with the code, "
              "e.g. Append vs Merge)")
